@@ -23,7 +23,10 @@ BUILD = os.path.join(VERIF, "build")
 TUS = ["core", "common", "ops_basic", "ops_spline", "ops_arith", "ops_apply",
        "ops_forms", "ops_gen", "plan", "run", "main"]
 
-GUARD_WRAP = "-Wl,--wrap=__cxa_guard_acquire,--wrap=__cxa_guard_release,--wrap=__cxa_guard_abort"
+GUARD_WRAP = ("-Wl,--wrap=__cxa_guard_acquire,--wrap=__cxa_guard_release,--wrap=__cxa_guard_abort,"
+              "--wrap=pthread_mutex_lock,--wrap=pthread_mutex_trylock,--wrap=pthread_mutex_unlock,--wrap=pthread_once,"
+              "--wrap=pthread_rwlock_rdlock,--wrap=pthread_rwlock_wrlock,--wrap=pthread_rwlock_tryrdlock,"
+              "--wrap=pthread_rwlock_trywrlock,--wrap=pthread_rwlock_unlock")
 NEW_WRAP = "-Wl,--wrap=_Znwm,--wrap=_Znam,--wrap=_ZdlPv,--wrap=_ZdaPv,--wrap=_ZdlPvm,--wrap=_ZdaPvm"
 
 COMMON = ["-std=c++17", "-fno-omit-frame-pointer"]
